@@ -192,8 +192,13 @@ def candidates(symbols, domain, rng, default_box, eps=None, primed=None, n_base=
             return rng.uniform(lo, hi)
         # every other base point mixes magnitudes: each coordinate is, with probability 1/2, within 10^-1 .. 10^-13 of
         # the box width from the point of the box closest to zero (tolerance tests look at small values)
-        if rng.random() < 0.5:
+        u = rng.random()
+        if u < 0.4:
             return rng.uniform(lo, hi)
+        if u < 0.6:
+            # close to an END of the box (range limits such as the antimeridian or the poles are where wrap / clip branches live)
+            end, other = (hi, lo) if rng.random() < 0.5 else (lo, hi)
+            return end + (other - end) * 10.0 ** (-rng.uniform(1, 13))
         anchor = min(max(0.0, lo), hi)
         side = hi - anchor if hi - anchor >= anchor - lo else lo - anchor
         return anchor + side * 10.0 ** (-rng.uniform(1, 13))
